@@ -228,6 +228,8 @@ const EPS: f64 = f64::EPSILON;
 use std::sync::atomic::{AtomicUsize, Ordering};
 /// occurrences of the known finding NR-START-RIGHT-OF-ROOT seen by the conjugacy oracle
 static KNOWN_POW_START: AtomicUsize = AtomicUsize::new(0);
+/// genpow update_scaling calls that accepted a dual point with a non-positive u-coordinate
+static ACCEPTED_NONPOS_U: AtomicUsize = AtomicUsize::new(0);
 
 /// compare vectors entrywise after scaling by σ:  |a_i - b_i| σ_i ≤ tol
 fn close_scaled(what: &str, a: &[f64], b: &[f64], sig: &[f64], tol: f64) -> Result<(), String> {
@@ -908,6 +910,20 @@ fn oracle_update_scaling(r: &Req, out: &str) -> Result<(), String> {
         // the barrier derivatives exist only at interior dual points: on or outside the
         // boundary (and on NaN input) the update must be refused and the state kept
         let nan = z.iter().any(|v| v.is_nan());
+        let d1 = cm.alphas().len();
+        let upos = z[..d1].iter().all(|&v| v > 0.0);
+        if !nan && !upos {
+            // The code tests only ζ = Π(zᵢ/αᵢ)^{2αᵢ} - ‖w‖² > 0.  With a non-positive u-coordinate
+            // ζ is NaN (refused) unless 2αᵢ makes the power real (αᵢ = 1, pairs of ½): then the
+            // point is accepted although it is outside K*.  `is_dual_feasible` rejects such
+            // points, so the line search never produces them; counted, not demanded.
+            if let Some(o) = resp(out) {
+                if o.b("ok") {
+                    ACCEPTED_NONPOS_U.fetch_add(1, Ordering::Relaxed);
+                }
+            }
+            return Ok(());
+        }
         if nan || iz.member == Some(false) {
             let o = resp(out).ok_or(format!("update_scaling panicked on a non-interior dual point: {}", out))?;
             if o.b("ok") {
@@ -1662,7 +1678,7 @@ fn generate(s: &mut Session) {
     // exact boundary / exterior / NaN dual points for the generalised power cone's update
     {
         let cm = ConeMath::Gen(vec![0.5, 0.5], 1);
-        for z in [[1.0, 1.0, 2.0], [1.0, 1.0, 2.5], [1.0, 1.0, 1.5], [1.0, 0.0, 0.0], [1.0, f64::NAN, 0.1], [-1.0, 1.0, 0.0]] {
+        for z in [[1.0, 1.0, 2.0], [1.0, 1.0, 2.5], [1.0, 1.0, 1.5], [1.0, 0.0, 0.0], [1.0, f64::NAN, 0.1], [-1.0, 1.0, 0.0], [-1.0, -1.0, 0.5]] {
             s.submit(base(&cm, "update_scaling").fs("s", &[1.0, 1.0, 0.0]).fs("z", &z).f("mu", 1.0).b("dual", true).fs("x", &[1.0, 2.0, 3.0]).done());
             s.submit(base(&cm, "update_scaling").fs("zprev", &[1.0, 1.2, 0.2]).fs("s", &[1.0, 1.0, 0.0]).fs("z", &z).f("mu", 2.0).b("dual", true).fs("x", &[1.0, 2.0, 3.0]).done());
         }
@@ -1691,6 +1707,10 @@ fn generate(s: &mut Session) {
             s.count(&format!("cone:{}", match &cm { ConeMath::Exp => "exp".to_string(), ConeMath::Pow(_) => "pow".to_string(), ConeMath::Gen(a, d) => format!("genpow({},{})", a.len(), d) }));
             gen_for_cone(s, &cm, reps);
         }
+    }
+    let a = ACCEPTED_NONPOS_U.load(Ordering::Relaxed);
+    if a > 0 {
+        s.note(format!("GenPowerCone::update_scaling accepted {} dual points with a non-positive u-coordinate (ζ > 0 because 2αᵢ is an integer); is_dual_feasible rejects them, so they are outside the solver's reach", a));
     }
     let k = KNOWN_POW_START.load(Ordering::Relaxed);
     if k > 0 {
